@@ -1,10 +1,15 @@
 #!/bin/bash
-# usage: tools/seed_confirm.sh <worktree dir> <prop>   -- confirms a sub-agent's seeded change in its own worktree
-W=$1; P=$2
-cd $W || exit 2
+# usage: tools/seed_confirm.sh <dir with patch.diff + demo_<P>.py> <P>
+# Confirms a seeded change in a FRESH scratch worktree of /repo (no git stash: it is shared between worktrees).
+S=$(cd "$1" && pwd); P=$2
+W=/tmp/seedchk_$P_$$
+git -C /repo worktree add -q $W HEAD || exit 2
+cd $W
+cp $S/demo_$P.py .
+[ -d $S/python_on_whales ] && cp -r $S/python_on_whales .
+echo "== demo without change"; /venv/bin/python demo_$P.py > /tmp/demo_without_$P.log 2>&1; echo "exit=$?"
+git apply $S/patch.diff || { echo "PATCH DOES NOT APPLY"; cd /; git -C /repo worktree remove --force $W; exit 2; }
 echo "== tests with change"; /venv/bin/python -m pytest -q -p no:cacheprovider 2>&1 | tail -1
-echo "== demo with change"; /venv/bin/python demo_$P.py > /tmp/demo_with.log 2>&1; echo "exit=$?"
-git stash -q
-echo "== demo without change"; /venv/bin/python demo_$P.py > /tmp/demo_without.log 2>&1; echo "exit=$?"
-git stash pop -q
-git diff --stat -- func_adl_xAOD | tail -2
+echo "== demo with change"; /venv/bin/python demo_$P.py > /tmp/demo_with_$P.log 2>&1; echo "exit=$?"
+git diff --stat -- func_adl_xAOD | tail -1
+cd /; git -C /repo worktree remove --force $W
